@@ -178,6 +178,9 @@ class Extraction:
                 if which in ('flush', 'stats'):
                     r = ex.call(prog.find_impl_method(which, 'QueuingMetricSink', 'MetricSink'), [Ref(hc)])
                     ex.out['result'] = r
+                    if which == 'stats' and isinstance(r, Agg) and ex.out.get('stats_syms') and len(r.fields) == 4:
+                        same = all(isinstance(f, Int) and z3.is_true(z3.simplify(f.t == s_)) for f, s_ in zip(r.fields, ex.out['stats_syms']))
+                        return ('return', 'token' if same else 'modified: ' + repr(r)[:80])
                     return ('return', 'token' if isinstance(r, Native) else repr(r)[:60])
             except qe.LoopBack as lb:
                 return ('loop', None)
@@ -822,3 +825,21 @@ def scenario_from_trace(steps, capv, handler):
                 inv = {v: k for k, v in IO_ERROR_KINDS.items()}
                 out[pending_kind[0]]['outcome'] = 'err:' + inv.get(kv, 'Other')
     return {'kind': 'queue', 'capacity': capv, 'handler': handler, 'steps': out}
+
+
+def stats_delegation(ctx, prog):
+    """C14 / C06 through the queuing wrapper: stats() and flush() are exactly the wrapped sink's (static obligations on
+    the extracted programs; used by the C14 check)."""
+    x = Extraction(prog, 'bounded', False)
+    for w, prop in (('stats', 'C14'), ('flush', 'C06')):
+        P = x.run_program(w)
+        ctx.paths += len(P.paths)
+        for ops, leaf in P.paths:
+            ctx.obligations += 1
+            kinds = [o['kind'] for o in ops]
+            if kinds != ['wrapped_' + w] or leaf[1] != 'token':
+                ctx.findings.append({'prop': prop, 'clause': 'queuing-%s-delegates' % w, 'pc': [], 'neg': None,
+                                     'detail': "%s() on the queuing sink is not exactly the wrapped sink's %s(): %s -> %r" % (w, w, [fmt_op(o) for o in ops], leaf),
+                                     'scenario': {'kind': 'queue-stats'} if w == 'stats' else None})
+    ctx.stats += x.stats
+    ctx.vacuity['queuing-delegation'] = {k: len(v.paths) for k, v in x.programs.items()}
